@@ -279,9 +279,14 @@ def twin_probe(unit, max_fns=40):
         return [{"id": "verus:%s:twin" % unit, "engine": "verus", "strength": "vacuity-probe", "status": "undecided",
                  "reason": "extraction failed: %s" % e}]
     out = []
-    fns = [it for it in meta["items"] if it["kind"] == "fn"][:max_fns]
+    fns = [it for it in meta["items"] if it["kind"] == "fn" or (it["kind"] == "stmts" and it.get("wrapper"))][:max_fns]
     for it in fns:
-        key = it["emitted_as"] + "@" + it["container"]
+        if it["kind"] == "stmts":
+            # statement-range wrapper: the probe goes in front of the range, the function that must fail is the wrapper
+            key = it["twin_key"]
+            it = dict(it, emitted_as=it["wrapper"])
+        else:
+            key = it["emitted_as"] + "@" + it["container"]
         m2 = {"items": []}
         text = extract.process(tmpl, REPO, m2, twin=key)
         dst = os.path.join(OUT, "%s__twin.rs" % unit)
